@@ -56,6 +56,10 @@ func H_C10_bind(v *V) {
 	for i := range words {
 		words[i] = v.String(lw)
 	}
+	// one word may be the empty string (a genuine, empty token)
+	if ew := v.Shape("ew"); ew >= 0 && ew < n {
+		words[ew] = ""
+	}
 	// terminator after word index `term` (n = no terminator); words after it may look like options
 	term := n
 	if v.Choice(2) == 1 {
